@@ -192,7 +192,13 @@ class Scenario(object):
                 if kind_ == "zero":
                     return dict((a, (0.0 if a in rset_ else w)) for a, w in weights.items())
                 return dict((a, w) for a, w in weights.items() if a not in rset_)
-        optimiser = FixedWeightPortfolioOptimiser() if self.opt == "fixed" else EqualWeightPortfolioOptimiser(scale=float(Fraction(self.scale)))
+        # one optimiser object per scenario and setting (as in a backtest, where the same object answers every rebalance)
+        if not hasattr(self, "_optimisers"):
+            self._optimisers = {}
+        okey = (self.opt, str(self.scale))
+        if okey not in self._optimisers:
+            self._optimisers[okey] = FixedWeightPortfolioOptimiser() if self.opt == "fixed" else EqualWeightPortfolioOptimiser(scale=float(Fraction(self.scale)))
+        optimiser = self._optimisers[okey]
         # one construction model and one execution handler per scenario (as in a backtest); what changes between
         # rebalances is handed over through their public attributes
         if getattr(self, "pcm", None) is None:
